@@ -165,6 +165,13 @@ def scenarios(rnd, quick, only_inbound=False):
         faults = sorted(rnd.sample(range(1, 90 * nout), rnd.choice([1, 1, 2])))
         scns.append(dict(id="W%d" % si, role=rnd.choice(["acceptor", "initiator"]), buf=rnd.choice([0, 1, 10]), senders=1,
                          conns=[dict(sent=[list(m) for m in msgs], chunks=[total] if total else [1], out=nout, writeFaults=faults)]))
+    # the application stops the handler while a message is inside its (slow) callback and more are queued behind it - from another
+    # goroutine or from the callback itself: what is delivered is still the peer's first messages, in order, one at a time
+    for si in range(12 if quick else 160):
+        msgs = [gen_msg(rnd) for _ in range(rnd.randint(4, 8))]
+        total = sum(len(m) for m in msgs)
+        scns.append(dict(id="P%d" % si, role=rnd.choice(["acceptor", "initiator"]), buf=rnd.choice([1, 4, 10, 10]), senders=1,
+                         conns=[dict(sent=[list(m) for m in msgs], chunks=[total], out=0, stopAt=rnd.randint(1, 3), stopInside=si % 2 == 0)]))
     if only_inbound:
         for s_ in scns:
             for c in s_["conns"]:
